@@ -36,8 +36,8 @@ type wnode struct {
 	kids []*wnode
 }
 
-var walkFileNames = []string{"a.go", "b.go", "main.go", "b_test.go", "_test.go", "x_test.go", "y_test.go.go", ".hidden.go", "notes.txt", "c.GO", "go", ".go", "vendor", "z.go.bak", "é.go", "test.go", "a_test.go"}
-var walkDirNames = []string{"pkg", "vendor", ".git", ".", "..x", "internal", "v.go", "_test.go", "sub", ".cache", "vendored", "Vendor", "a"}
+var walkFileNames = []string{"aux.go", "con.go", "lpt1.go", "nul.go", "a.go", "b.go", "main.go", "b_test.go", "_test.go", "x_test.go", "y_test.go.go", ".hidden.go", "notes.txt", "c.GO", "go", ".go", "vendor", "z.go.bak", "é.go", "test.go", "a_test.go"}
+var walkDirNames = []string{"con", "prn", "pkg", "vendor", ".git", ".", "..x", "internal", "v.go", "_test.go", "sub", ".cache", "vendored", "Vendor", "a"}
 
 func genWalkTree(r *Rng, depth int) []*wnode {
 	var out []*wnode
